@@ -98,9 +98,11 @@ Section C19.
     gen_tolocal R rO data [n0; n1] = Some L -> gen_fromlocal R rO L (length data / (n0 * n1)) n0 n1 = data.
   Proof. exact (gen_fromlocal_tolocal R rO). Qed.
 
-  (* COOData.dot is the product with the assembled (duplicates summed) matrix *)
-  Theorem C19_coo_dot : forall (c : coo R) (x : list R) n A z,
-    c_shape c = [n; n] -> length x = n -> gen_to_dense2 R rO radd c = Some A -> gen_coo_dot R rO radd rmul c x [] = Some z ->
+  (* COOData.dot is the product with the assembled (duplicates summed) matrix, stated for rectangular data (nr, nc):
+     gen_dot_rows is the number of entries the source allocates for the result (len(x), which forces nr = nc, or shape[0]) *)
+  Theorem C19_coo_dot : forall (c : coo R) (x : list R) nr nc A z,
+    c_shape c = [nr; nc] -> length x = nc -> gen_dot_rows R c x = nr ->
+    gen_to_dense2 R rO radd c = Some A -> gen_coo_dot R rO radd rmul c x [] = Some z ->
     z = matvec R rO radd rmul A x.
   Proof. exact (gen_coo_dot_spec R rO rI radd rmul rsub ropp Rth). Qed.
 
